@@ -147,7 +147,7 @@ Proof. exact C06_bulk.C06_compact. Qed.
 Print Assumptions C06_compact.
 
 (* update(IPSet | IPNetwork | IPRange | iterable); update(None) raises TypeError *)
-Theorem C06_update : cidr_merge_spec -> add_spec -> forall d a, SetInv d -> wf_sarg a -> a <> ANone ->
+Theorem C06_update : iprange_to_cidrs_spec -> cidr_merge_spec -> add_spec -> forall d a, SetInv d -> wf_sarg a -> a <> ANone ->
   exists d', set_update d a = Ok d' /\ SetInv d' /\ forall ver x, den d' ver x <-> den d ver x \/ in_sarg a ver x.
 Proof. exact C06_bulk.C06_update. Qed.
 Print Assumptions C06_update.
@@ -170,6 +170,23 @@ Theorem C06_clear : SetInv [] /\ forall ver x, ~ den [] ver x.
 Proof. exact C06_bulk.C06_clear. Qed.
 Print Assumptions C06_clear.
 
+(* add(IPRange | IPGlob), the bulk branch of add(); update(IPRange) is the same call *)
+Theorem C06_add_range : iprange_to_cidrs_spec -> cidr_merge_spec ->
+  forall d ver s e, Forall wf_net d -> valid_ver ver = true -> 0 <= s <= e -> e < 2 ^ width ver ->
+  exists d', set_add d (ERange ver s e) = Ok d' /\ SetInv d' /\ canon_nets d' /\
+    forall ver' x, den d' ver' x <-> den d ver' x \/ (ver' = ver /\ s <= x <= e).
+Proof. exact set_add_range. Qed.
+Print Assumptions C06_add_range.
+
+(* pop(): KeyError exactly on the empty set; otherwise the last inserted key is removed and returned *)
+Theorem C06_pop : forall d, SetInv d ->
+  match set_pop d with
+  | Ok (d', k) => In k d /\ SetInv d' /\ forall ver x, den d' ver x <-> den d ver x /\ ~ in_net k ver x
+  | Raise e => e = KeyError /\ d = []
+  end.
+Proof. exact C06_bulk.C06_pop. Qed.
+Print Assumptions C06_pop.
+
 (* pickle round trip: the same stored dict, key for key *)
 Theorem C06_pickle : forall d, SetInv d ->
   exists d', set_setstate (set_getstate d) = Ok d' /\ d' = d /\ SetInv d' /\ forall ver x, den d' ver x <-> den d ver x.
@@ -182,13 +199,13 @@ Theorem C06_step_enc : forall rs o, fst (step rs (enc_op o)) = ostep rs o.
 Proof. exact step_enc. Qed.
 Print Assumptions C06_step_enc.
 
-Theorem C06_step : iprange_to_cidrs_spec -> cidr_merge_spec -> add_spec -> remove_spec -> pop_spec ->
+Theorem C06_step : iprange_to_cidrs_spec -> cidr_merge_spec -> add_spec -> remove_spec ->
   inter_spec -> diff_spec -> xor_spec ->
   forall rs s o, Rel rs s -> wf_op o -> exists s', astep s o s' /\ Rel (ostep rs o) s'.
 Proof. exact C06_bulk.C06_step. Qed.
 Print Assumptions C06_step.
 
-Theorem C06_reachable : iprange_to_cidrs_spec -> cidr_merge_spec -> add_spec -> remove_spec -> pop_spec ->
+Theorem C06_reachable : iprange_to_cidrs_spec -> cidr_merge_spec -> add_spec -> remove_spec ->
   inter_spec -> diff_spec -> xor_spec ->
   forall ops rs s, Rel rs s -> Forall wf_op ops ->
   exists s', aruns s ops s' /\ Rel (fold_left ostep ops rs) s'.
@@ -197,7 +214,7 @@ Print Assumptions C06_reachable.
 
 (* from the four empty registers: after ANY finite history every register satisfies the invariant, shows the canonical
    list of the set the abstract run assigns to it, and == between registers is equality of those sets *)
-Theorem C06_reachable_shown : iprange_to_cidrs_spec -> cidr_merge_spec -> add_spec -> remove_spec -> pop_spec ->
+Theorem C06_reachable_shown : iprange_to_cidrs_spec -> cidr_merge_spec -> add_spec -> remove_spec ->
   inter_spec -> diff_spec -> xor_spec ->
   forall ops, Forall wf_op ops ->
   exists s', aruns aregs0 ops s' /\
@@ -220,3 +237,34 @@ Example C06_inv_example :
                {| nver := 6; nval := 1; nplen := 128 |} ].
 Proof. split; [apply setinvb_sound; vm_compute; reflexivity|vm_compute; reflexivity]. Qed.
 Print Assumptions C06_inv_example.
+
+(* a concrete 14-step mixed-family history over all four registers (iterable with host bits / range / int / address,
+   add, remove, range constructor, update with a set, | & - ^, pop, pickle, compact, copy, add int): every op is
+   well-formed and every register of the final state satisfies the invariant — by evaluating the model *)
+Definition example_ops : list op :=
+  let N v a p := {| nver := v; nval := a; nplen := p |} in
+  [ OInit 0 (TIter [ENet (N 4 167772161 24); ERange 4 167772416 167772671; EInt (2 ^ 32 + 5); EAddr 6 1]);
+    OAdd 0 (ENet (N 4 167772672 23));
+    ORemove 0 (EAddr 4 167772237);
+    OInit 1 (TRange 6 0 1000);
+    OUpdate 1 (TSet 0);
+    OUnion 2 0 1;
+    OInter 3 0 1;
+    ODiff 2 1 0;
+    OXor 3 1 0;
+    OPop 1;
+    OPickle 1;
+    OCompact 0;
+    OCopy 3 0;
+    OAdd 3 (EInt 7) ].
+Example C06_history_example :
+  Forall wf_op example_ops /\ Forall SetInv (fold_left ostep example_ops regs0) /\
+  map (@List.length net) (fold_left ostep example_ops regs0) = [12; 17; 15; 13]%nat.
+Proof.
+  split; [|split].
+  - unfold example_ops. repeat constructor; try (vm_compute; congruence).
+  - assert (E: forallb setinvb (fold_left ostep example_ops regs0) = true) by (vm_compute; reflexivity).
+    rewrite forallb_forall in E. apply Forall_forall. intros d Hd. apply setinvb_sound, E, Hd.
+  - vm_compute. reflexivity.
+Qed.
+Print Assumptions C06_history_example.
